@@ -462,6 +462,45 @@ def scale_work(item):
                         nodes, model = replay_history(names, history)
                         n_ops += 1
                         acc.add_problems(step(nodes, model, op, {"config": config, "history": history, "op": op}))
+    elif kind == "same-id":
+        # distinct node objects that carry one and the same id (two loads of one JSON text give that), and a parent whose
+        # namespace map has a default namespace: edits and queries are about the objects
+        n = payload
+        names = ["p"] + [("a" if i % 2 == 0 else "b") for i in range(n)]
+        history = [["add", 0, i, None] for i in range(1, n + 1)]
+        ops = []
+        for c in range(1, n + 1):
+            ops.append(["remove", 0, c])
+            for d in ("L", "R"):
+                for sib in (True, False):
+                    ops.append(["shift", 0, c, d, sib])
+        for flavour in ("same-id", "default-namespace"):
+            config = {"names": names, "scale": flavour}
+            for op in ops + [None]:
+                core.reset_store()
+                if flavour == "same-id":
+                    nodes = [Node(nm, id="dup") for nm in names]
+                else:
+                    nodes = [Node(nm, id=f"n{i}") for i, nm in enumerate(names)]
+                    nodes[0].nsmap = {None: "urn:default", "p": "urn:p"}
+                model = Model(names)
+                ok = True
+                for i_, h in enumerate(history):
+                    pr = step(nodes, model, h, {"config": config, "history": history[:i_], "op": h})
+                    if pr:
+                        acc.add_problems(pr)
+                        ok = False
+                        break
+                if not ok:
+                    break
+                n_ops += 1
+                if op is not None:
+                    pr = step(nodes, model, op, {"config": config, "history": history, "op": op})
+                    acc.add_problems(pr)
+                    if pr:
+                        continue
+                pr, _ = run_queries(nodes, model, {"config": config, "history": history + ([op] if op else [])}, 1)
+                acc.add_problems(pr)
     elif kind == "index-range":
         # insert at every index from far below -len to far above len: the child list is what list.insert gives
         n = payload
@@ -512,10 +551,18 @@ def scale_items(tier):
         items.append(("deep", depth))
     for n in (0, 1, 2, 3, 5):
         items.append(("index-range", n))
+    for n in (2, 3, 4):
+        items.append(("same-id", n))
     return items
 
 
 def replay(case):
+    if case.get("config", {}).get("scale") in ("same-id", "default-namespace"):
+        a = scale_work(("same-id", len(case["config"]["names"]) - 1))
+        want = core.jsonable({k: case.get(k) for k in ("history", "op", "query")})
+        return [p for ps in a.problems.values() for p in ps
+                if p["case"]["config"].get("scale") == case["config"]["scale"]
+                and core.jsonable({k: p["case"].get(k) for k in ("history", "op", "query")}) == want]
     if "insert_index" in case:
         a = scale_work(("index-range", len(case["history"])))
         return [p for ps in a.problems.values() for p in ps if p["case"].get("insert_index") == case["insert_index"]]
